@@ -62,7 +62,7 @@ structure NodeInv (h : NNet) (c : Nat) (m : NNet) (dn : Nat) (hn : String) (pre 
   mapInj : ∀ j1 j2 x, st.2.getD j1 none = some x → st.2.getD j2 none = some x → j1 = j2
   kind : ∀ j x, st.2.getD j none = some x → j ≠ dn → ∃ kn, addedOne m hn (some dn) j = some kn ∧ (st.1.net.node x).kind = kn.1
 
-theorem nodeInv_phase1 (h : NNet) (c : Nat) (m : NNet) (dn : Nat) (hn : String) (w : WF h) (hc : c < h.net.nodes.size)
+theorem nodeInv_phase1 (h : NNet) (c : Nat) (m : NNet) (dn : Nat) (hn : String) (w : WFr h) (hc : c < h.net.nodes.size)
     (hdn : dn < m.net.nodes.size) (hk : (m.net.node dn).isFork = (h.net.node c).isFork) :
     NodeInv h c m dn hn [] (phase1 h c m (some dn)) := by
   have hmap : ∀ k, ((Array.replicate m.net.nodes.size (none : Option Nat)).setIfInBounds dn (some c)).getD k none =
